@@ -103,6 +103,20 @@ Section C09.
     exact (unit_valid teqb neqb teqb_spec neqb_spec G G' (valid_wf G HG) Hy H).
   Qed.
 
+  Theorem C09_unreachable_verify : forall G G' : gram, valid G ->
+    unreachable_elim teqb neqb G = Ok G' -> verify teqb neqb G' = true.
+  Proof.
+    intros G G' HG H. apply (verify_spec teqb neqb teqb_spec neqb_spec).
+    exact (unreachable_valid teqb neqb teqb_spec neqb_spec G G' HG H).
+  Qed.
+
+  Theorem C09_cycles_verify : forall G G' : gram, valid G -> all_yield G ->
+    cycles_elim teqb neqb fresh G = Ok G' -> verify teqb neqb G' = true.
+  Proof.
+    intros G G' HG Hy H. apply (verify_spec teqb neqb teqb_spec neqb_spec).
+    exact (cycles_valid teqb neqb fresh teqb_spec neqb_spec fresh_spec G G' (valid_wf G HG) Hy H).
+  Qed.
+
   (** EliminateCycles leaves no derivation A =>+ A (checker [no_cycle]: the graph with an edge
       A -> B for every A -> α B β with α, β nullable is acyclic; here it has no edge at all) and
       declares every symbol it uses *)
@@ -235,6 +249,8 @@ Print Assumptions C09_unit_post.
 Print Assumptions C09_unreachable_post.
 Print Assumptions C09_del_verify.
 Print Assumptions C09_unit_verify.
+Print Assumptions C09_unreachable_verify.
+Print Assumptions C09_cycles_verify.
 Print Assumptions C09_cycles_post.
 Print Assumptions C09_left_factored_correct.
 Print Assumptions C09_left_recursion_post.
